@@ -509,6 +509,23 @@ def f10(tier):
                                                    ('value', ('lam', 'w', ('call', 'inner', [V('w')])))]),
                      ('decl', 'f', 'Fn', ('call', 'mk', [O(3)])), P(('call', 'f', [L(0)])), P(('call', 'f', [L(0)])),
                      ('decl', 'g', 'Fn', ('call', 'mk', [O(4)])), P(('call', 'g', [L(0)])), P(('call', 'f', [L(0)]))])
+    # emerge: a record or array under two names, updated through either, in every order of {declare alias, update via alias,
+    # update via original, read both}; alias taken conditionally; alias created by passing the structure to a function that
+    # updates it; the same for arrays
+    rr = lambda: [('decl', 'r', 'Rec', ('rec', O(1), O(2)))]
+    show2 = lambda a, b2: [P(('field', V(a), 'a')), P(('field', V(a), 'b')), P(('field', V(b2), 'a')), P(('field', V(b2), 'b'))]
+    steps = {'ua': [('setfield', V('r2'), 'b', L(7))], 'uo': [('setfield', V('r'), 'a', L(9))], 'ub': [('setfield', V('r2'), 'a', B('+', ('field', V('r'), 'a'), L(100)))]}
+    for order in itertools.permutations(['ua', 'uo', 'ub'], 2):
+        C.append(base + rr() + [('decl', 'r2', 'Rec', V('r'))] + steps[order[0]] + steps[order[1]] + show2('r', 'r2'))
+    for k in ('ua', 'uo', 'ub'):
+        C.append(base + rr() + [('decl', 'r2', 'Rec', V('r'))] + steps[k] + show2('r', 'r2'))
+        C.append(base + rr() + [('decl', 's', 'Rec', ('rec', L(30), L(40))), ('decl', 'r2', 'Rec', V('s')), ('if', B('>', O(1), L(0)), [('assign', 'r2', V('r'))], None)] + steps[k] + show2('r', 'r2') + show2('s', 's'))
+    mutf = ('fn', 'mutz', [('z', 'Rec')], 'I', [('setfield', V('z'), 'a', B('+', ('field', V('z'), 'a'), L(100))), ('value', ('field', V('z'), 'b'))])
+    C.append(base + [mutf] + rr() + [('expr', ('call', 'mutz', [V('r')])), P(('field', V('r'), 'a')), ('expr', ('call', 'mutz', [V('r')])), P(('field', V('r'), 'a'))])
+    C.append(base + [mutf] + rr() + [('decl', 'r2', 'Rec', V('r')), ('expr', ('call', 'mutz', [V('r2')]))] + show2('r', 'r2'))
+    aa = lambda: [('decl', 'a', 'AI', ('anew', L(3), O(5)))]
+    C.append(base + aa() + [('decl', 'b', 'AI', V('a')), ('aset', V('b'), L(1), L(50)), P(('aget', V('a'), L(1))), ('aset', V('a'), L(0), L(60)), P(('aget', V('b'), L(0)))])
+    C.append(base + aa() + [('decl', 'b', 'AI', V('a')), ('aset', V('a'), L(2), L(70)), P(('aget', V('b'), L(2))), P(('aget', V('a'), L(2)))])
     # env / nested closures three levels deep
     C.append(base + [('decl', 'a', 'I', O(1)), ('fn', 'l1', [('p', 'I')], 'I', [('decl', 'b', 'I', B('+', V('a'), V('p'))),
                      ('fn', 'l2', [('q', 'I')], 'I', [('decl', 'c', 'I', B('+', V('b'), V('q'))), ('fn', 'l3', [('w', 'I')], 'I', [('assign', 'a', B('+', V('a'), L(1))), ('value', B('+', B('+', V('a'), V('b')), B('+', V('c'), V('w'))))]),
